@@ -172,6 +172,50 @@ theorem mappingEdits_second_spec (old : List (Val × Val)) :
         rw [this]; exact ih'
       | some _ => simp only []; exact ih'
 
+/-- `diffMapping`: the edit for a key, by what the two mappings say about the key -/
+theorem mappingEdits_spec (f : Val → Val → Except Err (Option VDiff)) (old new : List (Val × Val))
+    (es : List (Val × Edit Val VDiff)) (ho : KeysDistinct old) (hn : KeysDistinct new)
+    (h : mappingEdits f old new = .ok es) (k : Val) :
+    match lookup k old, lookup k new with
+    | none, none => editFor k es = none
+    | some ov, none => editFor k es = some (k, .delete [ov])
+    | none, some nv => editFor k es = some (k, .add [nv])
+    | some ov, some nv => (f ov nv = .ok none ∧ editFor k es = none) ∨
+                          (∃ d, f ov nv = .ok (some d) ∧ editFor k es = some (k, .replace [some d])) := by
+  simp only [mappingEdits, bind, Except.bind] at h
+  split at h
+  · cases h
+  · rename_i es1 hes1
+    simp only [pure, Except.pure, Except.ok.injEq] at h
+    subst h
+    have h1 := mappingEdits_first_spec f new old es1 ho hes1 k
+    have h2 := mappingEdits_second_spec old new hn k
+    have happ : editFor k (es1 ++ mappingEdits.second old new) =
+        (editFor k es1).or (editFor k (mappingEdits.second old new)) := by
+      simp [editFor, List.find?_append]
+    rw [happ, h2]
+    cases hlo : lookup k old with
+    | none =>
+      simp only [hlo] at h1
+      cases hln : lookup k new <;> simp [h1]
+    | some ov =>
+      simp only [hlo] at h1
+      cases hln : lookup k new with
+      | none => simp only [hln] at h1; simp [h1]
+      | some nv =>
+        simp only [hln] at h1
+        rcases h1 with ⟨e1, e2⟩ | ⟨d, e1, e2⟩
+        · exact Or.inl ⟨e1, by simp [e2]⟩
+        · exact Or.inr ⟨d, e1, by simp [e2]⟩
+
+theorem hasEdit_eq (k : Val) (es : List (Val × Edit Val VDiff)) : hasEdit k es = (editFor k es).isSome := by
+  unfold hasEdit editFor
+  induction es with
+  | nil => rfl
+  | cons e es ih =>
+    simp only [List.any_cons, List.find?_cons]
+    cases k.beq e.1 <;> simp [ih]
+
 /-- the literal diff `diffReplacements` builds for two pieces of strings or bytes, when both sequences are such -/
 def litOf (old new : Val) : Option (List Val → List Val → VDiff) :=
   if old.indexReturnsSlice && new.indexReturnsSlice then
